@@ -35,7 +35,12 @@ def to_index(x):
         a, b, c = [None if len(o) == 0 else int(o[0]) for o in p]
         return slice(a, b, c)
     if kind == "mask":
-        return np.array([bool(v) for v in p], dtype=bool)
+        m = np.array([bool(v) for v in p], dtype=bool)
+        if len(x) > 2 and x[2] == "strided":
+            # the same mask as a non-contiguous view (every second element of a doubled array):
+            # numpy accepts it as an index like any other boolean array
+            m = np.repeat(m, 2)[::2]
+        return m
     if kind == "arr":
         return np.array([int(v) for v in p], dtype=np.int64)
     if kind == "all":
@@ -342,6 +347,8 @@ def gen_trace(item):
                 a = [_rand_index(rng, n)]
                 if safe_only and a[0][0] == "int" and a[0][1][0] < -n:
                     continue
+                if a[0][0] == "mask" and rng.random() < 0.3:
+                    a[0] = a[0] + ["strided"]     # realisation detail: a non-contiguous view
             elif op == "contains":
                 if n < 2:
                     continue
@@ -369,7 +376,12 @@ def _below(a, n):
 
 
 def classify(mm):
-    """Known finding C02-index-below-minus-n: scalar atom index < -n is not rejected."""
+    """Known findings: C02-index-below-minus-n (scalar atom index < -n is not rejected) and
+    C02-noncontiguous-mask (a boolean mask that is a strided view is refused)."""
+    if (mm.get("kind") == "event" and mm.get("op") == "index" and mm.get("a") and mm["a"][0][0] == "mask"
+            and len(mm["a"][0]) > 2 and mm["a"][0][2] == "strided"
+            and mm.get("expected", {}).get("oc") == "ok" and mm.get("observed", {}).get("oc") == "Rejected"):
+        return "C02-noncontiguous-mask"
     rec = None
     if mm.get("kind") == "crash":
         rec = mm.get("progress") or {}
@@ -585,8 +597,12 @@ def validate_traces(ctx, traces, selftest=False):
     d = tlc.scratch_dir("c02tr")
     tf = os.path.join(d, "traces.json")
     with open(tf, "w") as f:
-        json.dump([[{k: e[k] for k in ("op", "a", "oc", "n", "bonds", "out", "cmax_ok")} for e in tr]
-                   for tr in traces], f)
+        def spec_args(e):
+            if e["op"] == "index" and len(e["a"][0]) > 2:
+                return [e["a"][0][:2]]
+            return e["a"]
+        json.dump([[dict({k: e[k] for k in ("op", "oc", "n", "bonds", "out", "cmax_ok")}, a=spec_args(e))
+                    for e in tr] for tr in traces], f)
     res = ctx.tlc("Trace", "Trace.cfg", stage="S3-selftest" if selftest else "S3", workers=1,
                   env={"TRACE_FILE": tf}, count=not selftest, timeout=1200)
     expect_states = sum(len(t) + 1 for t in traces)
